@@ -1096,6 +1096,19 @@ def _cim_qualifier(key, value):
     return qual
 
 
+def _keyvalue_number_str(value):
+    """
+    Return the string for a numeric keybinding value in a KEYVALUE element.
+
+    The special float values are spelled INF, -INF and NaN as required by
+    DSP0201; str() would produce 'inf', '-inf' and 'nan'.
+    """
+    if isinstance(value, float) and \
+            not float('-inf') < value < float('inf'):
+        return atomic_to_cim_xml(value)
+    return str(value)
+
+
 class CIMInstanceName(_CIMComparisonMixin, SlottedPickleMixin):
     """
     A CIM instance path (aka *CIM instance name*).
@@ -1729,7 +1742,7 @@ class CIMInstanceName(_CIMComparisonMixin, SlottedPickleMixin):
                 # Numeric CIM data types derive from Python number types.
                 value_type = 'numeric'
                 cim_type = value.cimtype
-                value = str(value)
+                value = _keyvalue_number_str(value)
             elif isinstance(value, number_types):
                 value_type = 'numeric'
 
@@ -1739,7 +1752,7 @@ class CIMInstanceName(_CIMComparisonMixin, SlottedPickleMixin):
                 # to set the TYPE attribute that was introduced in DTD 2.4.
                 cim_type = None
 
-                value = str(value)
+                value = _keyvalue_number_str(value)
             else:
                 # Double check the type of the keybindings, because they can be
                 # set individually.
